@@ -5,7 +5,7 @@ Every theorem is followed by an `example` instantiating its hypotheses (non-vacu
 -/
 import MpycV.Lemmas.NumThPrime2
 import MpycV.Lemmas.NumThEuclid
-import MpycV.Lemmas.NumThGcdextTable
+import MpycV.Lemmas.NumThGcdextNorm
 import MpycV.Lemmas.NumThJacobi
 import MpycV.Lemmas.NumThRoots
 import MpycV.Lemmas.NumThFpp
@@ -111,14 +111,20 @@ theorem gcdext_bezout (a b : Int) :
 
 example : gcdext 0 0 = .ok (0, 0, 0) := by decide
 
-/-- PARTIAL (table, `decide +kernel`): the GMP normalisation of the cofactors (|s| < |b|/(2g), |t| < |a|/(2g) with
-the documented exceptions, `gmpNormal`) holds for all |a|, |b| ≤ 25.  The statement for all integers is not proved;
-beyond the table it is validated by the oracle in harness/props/c25.py (all |a|,|b| ≤ 300 and random 2048-bit). -/
-theorem gcdext_normalised_partial :
-    ∀ a ∈ intRange 25, ∀ b ∈ intRange 25, gcdextNormalOk a b = true :=
-  gcdext_normalised_table
+/-- ★ (was ☆) gcdext obeys the GMP normalisation of the cofactors for ALL integers a, b (`GmpNormal`, the wording of
+the GMP manual / the stub's docstring): if |a| = |b| then s = 0, t = sgn b; otherwise
+s = sgn a if b = 0 or |b| = 2g, else 2g|s| < |b|;  t = sgn b if a = 0 or |a| = 2g, else 2g|t| < |a|.
+These conditions determine (s, t) uniquely, so this is "returns what gmpy2.gcdext returns". -/
+theorem gcdext_normalised (a b : Int) : ∃ g s t, gcdext a b = .ok (g, s, t) ∧ GmpNormal a b g s t :=
+  gcdext_normal a b
 
-example : (-6 : Int) ∈ intRange 25 ∧ (4 : Int) ∈ intRange 25 := by decide
+example : gcdext (-6) 4 = .ok (2, -1, -1) ∧ GmpNormal (-6) 4 2 (-1) (-1) := by
+  obtain ⟨g, s, t, h1, h2⟩ := gcdext_normalised (-6) 4
+  have h3 : gcdext (-6) 4 = .ok (2, -1, -1) := by decide
+  rw [h3] at h1
+  simp only [Except.ok.injEq, Prod.mk.injEq] at h1
+  obtain ⟨rfl, rfl, rfl⟩ := h1
+  exact ⟨h3, h2⟩
 
 /-! ## jacobi, legendre, kronecker -/
 
